@@ -43,11 +43,12 @@ def _c12():
     ldl_or = "Ok <=> all leading principal minors != 0; then L D L' == A entrywise, Dinv*D == 1, D_k = m_k/m_(k-1), L pattern == reference fill, Lp = cumsum(Lnz), rows in range/no duplicates; else Err(ZeroPivot)"
     for k in range(8):
         add("c12_ldl3_p%d" % k, unit="qdldl::_etree + _factor_inner (numeric, unchecked indexing)", inst="GF(13), all values", bounds="n=3, off-diagonal pattern mask %d (all 8 enumerated), full diagonal" % k,
-            oracle=ldl_or, **({} if k in (7, 5, 2) else {"rot": True}))
+            oracle=ldl_or, timeout=(2400 if k == 7 else 1200), **({} if k in (7, 5, 2) else {"rot": True}))
     add("c12_ldl3_p7_nodiag1", unit="qdldl::_etree + _factor_inner", inst="GF(13)", bounds="n=3 dense off-diagonals, missing diagonal entry (1,1)", oracle=ldl_or, rot=True)
     add("c12_ldl3_p5_nodiag2", unit="qdldl::_etree + _factor_inner", inst="GF(13)", bounds="n=3 mask 5, missing diagonal entry (2,2)", oracle=ldl_or, rot=True)
-    for k in (63, 11, 37, 56, 25, 42):
-        add("c12_ldl4_p%d" % k, tier="thorough", unit="qdldl::_etree + _factor_inner", inst="GF(13)", bounds="n=4, off-diagonal mask %d, full diagonal" % k, oracle=ldl_or, timeout=3600, mem_gb=24)
+    # (mask 63, the dense 4x4 pattern, exceeds the 24 GB cap; mask 11 did not finish in an hour: not registered)
+    for k in (37, 56, 25, 42):
+        add("c12_ldl4_p%d" % k, tier="thorough", unit="qdldl::_etree + _factor_inner", inst="GF(13)", bounds="n=4, off-diagonal mask %d, full diagonal" % k, oracle=ldl_or, timeout=7200, mem_gb=24)
     add("c12_refactor3_dense", unit="qdldl::_factor_inner twice on one workspace (what QDLDLFactorisation::refactor does)", inst="GF(13)", bounds="n=3 dense; first values arbitrary (may stop at a zero pivot)",
         oracle="L, D, Dinv, verdict of the refactorisation == those of a fresh factorisation of the new values")
     add("c12_refactor3_nodiag1", unit="qdldl::_factor_inner twice on one workspace", inst="GF(13)", bounds="n=3 dense off-diagonals, stored diagonal entry (1,1) missing", oracle="same (the pivot accumulator D is re-initialised)")
@@ -103,6 +104,10 @@ def _c09():
                    bounds="symbolic bound and later value", oracle="stored bound == bound in force at construction"))
     hs.append(dict(name="c09::c09_infbound", nofloat=True, unit="set_infinity/get_infinity/default_infinity", inst="f64 all bit patterns", bounds="-",
                    oracle="round trip; default is 1e20", timeout=300))
+    for nm, bd in (("c09_cap_with_active_presolve", "b = [1e30 (dropped), 5, sym, sym]"), ("c09_cap_without_reduction", "b = [7, 5, sym, sym] (no row dropped)")):
+        hs.append(dict(name="c09::" + nm, nofloat=True, stubs=True, timeout=1800, mem_gb=20, unit="DefaultProblemData::new (new_collapsed, try_presolver, Presolver::new/presolve, select_rows, cap of b at the bound); get_infinity stubbed to the constant 1e20",
+                       inst="f64: second-order-cone rows of b over all non-NaN bit patterns, A small integers", bounds="n=1, cones [NN2, SOC2], " + bd + ", equilibration off",
+                       oracle="reduced b = user's b with dropped rows deleted and every entry capped at the bound; reduced A = A with the dropped row deleted"))
     return hs
 
 
@@ -303,6 +308,7 @@ def _c04():
     return H
 
 PROPS["C04"] = {
+    "native_tests": ["tv_timers"],
     "feature": "c04",
     "bounds_note": "main loop: max_iter <= 2 (quick) / <= 4 (thorough), every f64 value for every numeric result of every component; verdict logic: all f64",
     "outside": "panics or hangs *inside* the numeric components (KKT solve, AMD, faer, cone kernels) for extreme data; wall-clock behaviour; max_iter > 4 (the loop body is uniform in the iteration index: argued, not proved); dimension checks and cone collapsing are separate harnesses",
@@ -360,9 +366,7 @@ PROPS["C13"] = {
         ("c13_soc3_hs_block_p7", dict(unit="SecondOrderCone::get_Hs (dense packed block)", inst="GF(7)", bounds="dim 3", oracle="unpacked packed-triu block == mul_Hs", timeout=1500)),
         ("c13_soc3_hs_block", dict(tier="thorough", unit="same", inst="GF(17)", bounds="dim 3", oracle="same", timeout=3600)),
         ("c13_soc3_update_scaling", dict(unit="SecondOrderCone::update_scaling", inst="GF(13)", bounds="dim 3, all s,z with square nonzero residuals", oracle="w normalised; eta^4 = res(s)/res(z)", timeout=2400, mem_gb=20)),
-        ("c13_soc5_update_scaling_sparse", dict(tier="thorough", unit="SecondOrderCone::update_scaling incl. sparse_data (u,v,d)", inst="GF(13)", bounds="dim 5 (two symbolic tail entries, the others zero)", oracle="as above + eta^2(D+uu'-vv') == mul_Hs; D block = eta^2 diag(d,1,..)", timeout=3000, mem_gb=24)),
-        ("c13_soc5_update_scaling_sparse_p31", dict(tier="thorough", unit="same", inst="GF(31)", bounds="dim 5", oracle="same", timeout=7200, mem_gb=28)),
-        ("c13_soc5_update_scaling_sparse_p7", dict(unit="same", inst="GF(7)", bounds="dim 5 (two symbolic tail entries, the others zero)", oracle="same", timeout=2400, mem_gb=24)),
+        ("c13_soc5_update_scaling_sparse_p7", dict(unit="SecondOrderCone::update_scaling incl. sparse_data (u,v,d), get_Hs, mul_Hs", inst="GF(7) (over GF(13) the nested roots of the sparse path never all exist - the harness is vacuous there, reported by the cover guard; GF(31) did not finish in an hour)", bounds="dim 5 (two symbolic tail entries, the others zero)", oracle="w normalised; eta^4 = res(s)/res(z); eta^2(D+uu'-vv') == mul_Hs; D block = eta^2 diag(d,1,..)", timeout=2400, mem_gb=24)),
         ("c13_soc3_jordan_p7", dict(unit="SecondOrderCone::circ_op/inv_circ_op/affine_ds/combined_ds_shift (_combined_ds_shift_symmetric)", inst="GF(7)", bounds="dim 3", oracle="arrow product; inverse; lambda o lambda; W^-1 ds o W dz - sigma mu e", timeout=1800)),
         ("c13_soc3_jordan", dict(tier="thorough", unit="SecondOrderCone::circ_op/inv_circ_op/affine_ds/combined_ds_shift (_combined_ds_shift_symmetric)", inst="GF(13)", bounds="dim 3", oracle="arrow product; inverse; lambda o lambda; W^-1 ds o W dz - sigma mu e", timeout=3600)),
         ("c13_nn_scaling", dict(unit="NonnegativeCone::update_scaling/get_Hs/mul_Hs/mul_W/mul_Winv/affine_ds/Ds_from_Dz_offset", inst="GF(13)", bounds="dim 2", oracle="Hs z = s; lambda^2 = s z; Winv W = I; offset = ds/z", timeout=1200)),
@@ -378,6 +382,7 @@ _c15 = [
     ("c15_nn3_exact_pow2", dict(nofloat=True, tier="thorough", unit="same", inst="same", bounds="dim 3", oracle="same", timeout=3000)),
     ("c15_zero_cone", dict(nofloat=True, unit="ZeroCone::step_length", inst="f64", bounds="dim 2", oracle="(alpha_max, alpha_max)")),
     ("c15_backtrack", dict(nofloat=True, unit="nonsymmetric_common::backtrack_search", inst="f64", bounds="arbitrary membership oracle (6 arbitrary answers), step 0.5, alpha_min = alpha_init/20", oracle="terminates; returns 0 or alpha_init*step^k; returned alpha accepted, all larger candidates rejected", timeout=1200)),
+    ("c15_backtrack_long", dict(nofloat=True, unit="nonsymmetric_common::backtrack_search", inst="f64", bounds="alpha_init 1, step 1/2, alpha_min 2^-70 (up to 71 trials); the oracle accepts exactly the j-th candidate, j symbolic in 0..90", oracle="returns 2^-j if j <= 70 (after exactly j+1 oracle calls), else 0 after 71 calls: no trial budget other than alpha_min, never an untested value", timeout=1800, mem_gb=20)),
     ("c15_composite_nn_zero_nn", dict(nofloat=True, stubs=True, unit="CompositeCone::step_length (+ NonnegativeCone / ZeroCone)", inst="f64: signed powers of two", bounds="[NN1, Zero1, NN2]", oracle="common step == exact minimum over the cones' ratio tests and alpha_max; zero cone unrestricted", timeout=1800, mem_gb=20)),
     ("c15_shift_nn", dict(nofloat=True, stubs=True, unit="DefaultVariables::symmetric_initialization -> _shift_to_cone_interior, CompositeCone::margins/scaled_unit_shift", inst="f64, |v| <= 1e100", bounds="[NN2, Zero1]", oracle="afterwards s,z strictly positive in the NN cone; zero-cone slack 0; tau=kappa=1", timeout=1800)),
 ]
@@ -393,7 +398,7 @@ _C07_LOOP = dict(name="c04::c04_loop_asym_dual_mi1", nofloat=True, stubs=True, u
                  bounds="max_iter<=1, nonsymmetric cones / dual scaling (barrier backtracking active); Settings::core() hands the loop a POISONED max_iter, only the termination check sees the real one",
                  oracle=_LOOP_OR + "; every step taken under dual scaling was accepted by the barrier test; nothing depends on the poisoned budget")
 PROPS["C07"] = {
-    "native_tests": ["tv_composite"],
+    "native_tests": ["tv_composite", "tv_timers"],
     "feature": "c07",
     "bounds_note": "tau/kappa step: all positive finite tau,kappa, all step data; budget independence: the real main loop run with a poisoned max_iter (max_iter<=1), see C04",
     "outside": "interiority of s,z after a step for SOC/exp/pow/PSD cones (real-number reasoning about roots/logs); bit-reproducibility of arithmetic (determinism of f64 operations is assumed); tau',kappa' > 0 after the step (needs reasoning about a rounded product - not finished by the SAT back end)",
@@ -420,6 +425,10 @@ PROPS["C08"] = {
     ]) + [dict(name="c11::c11_kkt_sync_nn2_reg", stubs=True, nofloat=True, unit="DirectLDLKKTSolver::{update_P, update_A, update} against a mirror LDL engine", inst="f64 small ints", bounds="n=2, cones [NN2]", timeout=2400, mem_gb=24,
                  oracle="new P and A values reach the LDL engine's own copy (engine copy == KKT at refactor) and the solver's KKT copy")],
 }
+
+# the normalisers ||q||, ||b|| of the relative residuals (C01/C02/C03) are cached values recomputed after updates
+for _p in ("C01", "C02", "C03"):
+    PROPS[_p]["harnesses"] = PROPS[_p]["harnesses"] + [x for x in PROPS["C08"]["harnesses"] if x["name"].endswith("c08_norm_cache")]
 
 _EQ_UNIT = "DefaultProblemData::equilibrate (kkt_col_norms, scale_data, lrscale/lscale/hadamard, clip, CompositeCone::rectify_equilibration) + DefaultProblemData::new"
 _EQ_OR = "P == c D P0 D, A == E A0 D, q == c D q0, b == E b0 with the recorded d,e,c; dinv*d == 1, einv*e == 1; E constant over non-scalar cones; patterns unchanged"
@@ -461,22 +470,15 @@ _JET = "first-order jets over GF(13): exact differentiation of the REAL generic 
 PROPS["C14"] = {
     "feature": "c14",
     "bounds_note": "exponential and 3-d power cone; all field values of z, all directions, all exponents alpha not in {0,1}; one derivative direction per query",
-    "outside": "membership predicates vs. the cone / dual-cone definitions (transcendental inequalities); conjugacy of gradient_primal (Wright omega, Newton-Raphson: float iterations); primal-dual scaling matrix (depends on gradient_primal); unit_initialization constants; generalised power cone; anything about rounding",
+    "outside": "higher_correction == -1/2 third derivative (exp and pow): a degree-10 polynomial identity in ~10 field variables that CaDiCaL does not decide within an hour at GF(13), monolithically or with the Cholesky routines replaced by their specification, with full or basis directions; vacuous at GF(5)/GF(7) (the pivots of the exp Hessian are not squares there) - harnesses kept unregistered in c14.rs; only the Cholesky factorisation it calls is decided (c14_chol3_factor_is_llt); membership predicates vs. the cone / dual-cone definitions (transcendental inequalities); conjugacy of gradient_primal (Wright omega, Newton-Raphson: float iterations); primal-dual scaling matrix (depends on gradient_primal); unit_initialization constants; generalised power cone; anything about rounding",
     "assumptions": ["uninterpreted ln/powf: the identities decided are those that follow from the derivative rules alone (which is how the code derives them)",
                     "GF(13) identities transfer to the reals as identities of rational functions where denominators are nonzero"],
     "harnesses": _mk("c14", [
         ("c14_exp_grad_is_derivative_of_dual_barrier", dict(unit="ExponentialCone::barrier_dual / update_dual_grad_H", inst="Jet<GF(13)>", bounds="all z (z1,z3 != 0), symbolic direction index", oracle="d f*(z)/dz_j == grad[j]", timeout=2400, mem_gb=20)),
         ("c14_exp_hessian_is_derivative_of_grad", dict(unit="ExponentialCone::update_dual_grad_H", inst="Jet<GF(13)>", bounds="all z, symbolic j", oracle="d grad[i]/dz_j == H[i][j] for all i", timeout=2400, mem_gb=20)),
-        ("c14_chol3_is_a_linear_solver", dict(unit="DenseMatrixSym3::cholesky_3x3_explicit_factor / cholesky_3x3_explicit_solve", inst="GF(13)", bounds="all symmetric 3x3 H, all b", oracle="success => H x == b and all leading minors nonzero; failure => a leading minor vanishes", timeout=1800, mem_gb=20)),
-        ("c14_exp_higher_correction_spec", dict(stubs=True, unit="ExponentialCone::higher_correction with the two Cholesky routines replaced by their specification (Cramer's rule; justified by c14_chol3_is_a_linear_solver)", inst="Jet<GF(13)>", bounds="all z, u, v; nonzero leading minors of H", oracle="eta == -1/2 (d/dt H(z+tv)) u with H u = ds", timeout=2400, mem_gb=24)),
-        ("c14_exp_higher_correction_spec_basis", dict(stubs=True, unit="same", inst="Jet<GF(13)>", bounds="all z; u = lambda e_k, v = mu e_j", oracle="same", timeout=2400, mem_gb=24)),
-        ("c14_pow_higher_correction_spec", dict(stubs=True, tier="thorough", unit="PowerCone::higher_correction, Cholesky routines replaced by their specification", inst="Jet<GF(13)>", bounds="all z, alpha, u, v", oracle="same", timeout=3600, mem_gb=24)),
-        ("c14_exp_higher_correction_basis", dict(unit="ExponentialCone::higher_correction, DenseMatrixSym3::cholesky_3x3_explicit_{factor,solve}", inst="Jet<GF(13)>", bounds="all z; u = lambda e_k, v = mu e_j (symbolic indices and factors); nonzero leading minors of H", oracle="eta == -1/2 (d/dt H(z+tv)) u with H u = ds", timeout=2400, mem_gb=24)),
-        ("c14_pow_higher_correction_basis", dict(tier="thorough", unit="PowerCone::higher_correction", inst="Jet<GF(13)>", bounds="all z, alpha; u = lambda e_k, v = mu e_j", oracle="same", timeout=3600, mem_gb=24)),
-        ("c14_exp_higher_correction_is_third_derivative", dict(tier="thorough", unit="same", inst="Jet<GF(13)>", bounds="same", oracle="same", timeout=7200, mem_gb=28)),
+        ("c14_chol3_factor_is_llt", dict(unit="DenseMatrixSym3::cholesky_3x3_explicit_factor", inst="GF(13)", bounds="all symmetric 3x3 H", oracle="success => L L' == H, nonzero diagonal; failure => a leading principal minor vanishes", timeout=1800, mem_gb=20)),
         ("c14_pow_grad_is_derivative_of_dual_barrier", dict(unit="PowerCone::barrier_dual / update_dual_grad_H", inst="Jet<GF(13)>", bounds="all z != 0, all alpha", oracle="d f*(z)/dz_j == grad[j]", timeout=2400, mem_gb=20)),
         ("c14_pow_hessian_is_derivative_of_grad", dict(unit="PowerCone::update_dual_grad_H", inst="Jet<GF(13)>", bounds="all z, alpha, j", oracle="d grad[i]/dz_j == H[i][j]", timeout=2400, mem_gb=20)),
-        ("c14_pow_higher_correction_is_third_derivative", dict(tier="thorough", unit="PowerCone::higher_correction", inst="Jet<GF(13)>", bounds="all z, u, v, alpha", oracle="eta == -1/2 (d/dt H(z+tv)) u", timeout=7200, mem_gb=28)),
         ("c14_dual_scaling_is_mu_times_hessian", dict(unit="Nonsymmetric3DConeUtils::use_dual_scaling, ExponentialCone::get_Hs / mul_Hs", inst="GF(13)", bounds="all H, mu, x", oracle="Hs == mu H; get_Hs / mul_Hs expose Hs", timeout=1200)),
     ]),
 }
